@@ -8,10 +8,17 @@ use crate::simreader::Plan;
 pub struct Budget {
     pub evals: usize,
     pub max: usize,
+    /// wall-clock limit for minimisation (it only bounds how small the replay file gets, never a verdict)
+    pub start: std::time::Instant,
+    pub secs: u64,
 }
 
 fn try_accept(cur: &mut Session, cand: Session, fails: &mut dyn FnMut(&Session) -> bool, b: &mut Budget) -> bool {
     if b.evals >= b.max || cand == *cur {
+        return false;
+    }
+    if b.start.elapsed().as_secs() >= b.secs {
+        b.evals = b.max;
         return false;
     }
     b.evals += 1;
@@ -114,7 +121,7 @@ fn doc_mut(s: &mut Session, alt: bool, i: usize) -> &mut Doc {
 
 pub fn shrink_session(start: &Session, fails: &mut dyn FnMut(&Session) -> bool, max_evals: usize) -> (Session, usize) {
     let mut cur = start.clone();
-    let mut b = Budget { evals: 0, max: max_evals };
+    let mut b = Budget { evals: 0, max: max_evals, start: std::time::Instant::now(), secs: 90 };
     loop {
         let mut progress = false;
         // 1. drop replicas (from the end)
@@ -341,8 +348,13 @@ use crate::cli::{CliCase, InState, OutState};
 pub fn shrink_cli(start: &CliCase, fails: &mut dyn FnMut(&CliCase) -> bool, max_evals: usize) -> (CliCase, usize) {
     let mut cur = start.clone();
     let mut evals = 0usize;
+    let started = std::time::Instant::now();
     let mut attempt = |cur: &mut CliCase, cand: CliCase, evals: &mut usize| -> bool {
         if *evals >= max_evals || cand == *cur {
+            return false;
+        }
+        if started.elapsed().as_secs() >= 90 {
+            *evals = max_evals;
             return false;
         }
         *evals += 1;
